@@ -78,6 +78,7 @@ def run(ctx):
     ok = bool(adds) and all(x.args and norm(x.args[0]) == "owner_id" for x in adds)
     c.ob("R3", ok, at, "timer-task-registered-under-owner", "the timer task is registered under its owning state" if ok else
          "the async timer task is not registered with the task manager under its owner: exit/stop cannot cancel it", at.node)
+    shared.background_tasks_owned(ctx, "R3", only_funcs={"_after_timer"})
     syt = p.method("SyncInterpreter", "_after_timer")
     stores = [w for w in attr_writes(syt) if w.attr == "_after_events" and w.op == "subscript"]
     keyok = False
